@@ -29,6 +29,7 @@ type verdict struct {
 	GaveUp     bool
 	App        aApp
 	Findings   []finding
+	SwTerm     string // Gallina case for the Swagger definitions
 	Term       string // Gallina case ("" if none)
 	Skipped    string // why there is no Gallina case
 	ParseErr   string
@@ -113,13 +114,28 @@ func judgeApp(a aApp, opt options) (v verdict) {
 	// ---- Swagger 2
 	j2 := &judge{fmtName: "swagger"}
 	sj, sy := runExport2(app, "json"), runExport2(app, "yaml")
+	if opt.coq {
+		v.SwTerm, _ = swCaseTerm(app, typesOnlyExport2(app))
+	}
 	v.Out2 = string(sy.Bytes)
 	if sj.Err != "" || sj.Panic != "" || sy.Err != "" || sy.Panic != "" {
 		bad := sj
 		if sj.Err == "" && sj.Panic == "" {
 			bad = sy
 		}
-		j2.fail("export-fails:"+exportClass(bad), "export -f swagger fails: %s%s", bad.Err, bad.Panic)
+		cls := exportClass(bad)
+		if cls == "error:collection-typed-parameter" {
+			has := false
+			for _, ep := range a.Endpoints {
+				for _, p := range ep.Params {
+					has = has || ((p.In == "body" || p.In == "header") && (p.T.Kind == "seq" || p.T.Kind == "set"))
+				}
+			}
+			if !has {
+				cls = "error:no-swagger-type-unexpected" // the application has no set / sequence typed parameter
+			}
+		}
+		j2.fail("export-fails:"+cls, "export -f swagger fails: %s%s", bad.Err, bad.Panic)
 	} else {
 		if doc := decodeBoth(j2, sj.Bytes, sy.Bytes); doc != nil {
 			wellFormed2(j2, sj.Bytes, doc)
@@ -188,6 +204,7 @@ func judgeHostile(a aApp) (v verdict) {
 		return v
 	}
 	v.Term, v.Skipped = caseTerm(m.Apps[a.Name], runExport3(m.Apps[a.Name], "json"))
+	v.SwTerm, _ = swCaseTerm(m.Apps[a.Name], typesOnlyExport2(m.Apps[a.Name]))
 	return v
 }
 
@@ -340,10 +357,13 @@ type replayT struct {
 
 const caseHeader = `From Coq Require Import String List NArith ZArith Bool.
 Import ListNotations.
-Require Import Verif.Export.OasTypes Verif.Export.OasExport Verif.Export.Run Verif.Base.Harness.
+Require Import Verif.Export.OasTypes Verif.Export.OasExport Verif.Export.SwExport Verif.Export.Run Verif.Base.Harness.
 Local Open Scope string_scope. Local Open Scope N_scope.`
 
 const caseFooter = `Definition M := Eval vm_compute in mismatches c12_ok cases.
+Print M.`
+
+const swFooter = `Definition M := Eval vm_compute in mismatches c12s_ok cases.
 Print M.`
 
 func main() {
@@ -521,6 +541,14 @@ func main() {
 		}
 	}
 	cases.Close()
+	swCases := c.NewCases("C12S", caseHeader, "c12s_case", swFooter, 60)
+	for i, v := range results {
+		if v.SwTerm != "" {
+			swCases.Add(v.SwTerm, replayT{"app", jobs[i].a, ""})
+			c.Hist("coq-case-swagger-definitions")
+		}
+	}
+	swCases.Close()
 	var keys []string
 	for k := range shrunk {
 		keys = append(keys, k)
